@@ -2208,6 +2208,14 @@ class QuaternionArray(np.ndarray):
         obj.num_qts = q.shape[0]
         return obj
 
+    def __array_finalize__(self, obj):
+        if obj is None:
+            return
+        # Copies, views and slices keep describing their own quaternions
+        self.array = self.view(np.ndarray)
+        self.scalar_vector = getattr(obj, 'scalar_vector', True)
+        self.num_qts = self.shape[0] if self.ndim > 0 else 0
+
     @property
     def w(self) -> np.ndarray:
         """
